@@ -66,6 +66,10 @@ def _gen_create(rng, oid, cfg):
             "batch": rng.choice([None, None, None, 1, 2, 3]),
             "normsys_code": rng.choice(["code4", "code4", "code1"]),
             "histosys_code": rng.choice(["code4p", "code4p", "code0", "code2"]),
+            # construction options that end up inside the main model: lower clipping per sample / per bin, no POI
+            "clip_sample": rng.choice([None, None, None, 0.0, 8.0]),
+            "clip_bin": rng.choice([None, None, None, 0.0, 20.0]),
+            "nopoi": rng.random() < 0.08,
         }
     elif kind == "interp":
         code = rng.choice([0, 1, 2, 4, "4p"])
@@ -255,6 +259,8 @@ def simplify(op):
             yield dict(op, args=dict(a, batch=None))
         if a["meas"] != 0:
             yield dict(op, args=dict(a, meas=0))
+        if a.get("clip_sample") is not None or a.get("clip_bin") is not None or a.get("nopoi"):
+            yield dict(op, args=dict(a, clip_sample=None, clip_bin=None, nopoi=False))
         n = 0
         for w in specs.shrink_workspace(a["ws"]):
             if a["meas"] < len(w["measurements"]):
@@ -324,12 +330,20 @@ class World:
         a = copy.deepcopy(a)   # object and twin never share argument objects (nor with the recorded op)
         if kind == "model":
             ms = {"normsys": {"interpcode": a["normsys_code"]}, "histosys": {"interpcode": a["histosys_code"]}}
+            kw = {}
+            if a.get("clip_sample") is not None:
+                kw["clip_sample_data"] = a["clip_sample"]
+            if a.get("clip_bin") is not None:
+                kw["clip_bin_data"] = a["clip_bin"]
+            if a.get("nopoi"):
+                kw["poi_name"] = None
             if a["how"] == "workspace":
                 w = pyhf.Workspace(a["ws"])
                 return w.model(measurement_name=a["ws"]["measurements"][a["meas"]]["name"],
-                               batch_size=a["batch"], modifier_settings=ms)
+                               batch_size=a["batch"], modifier_settings=ms, **kw)
             spec, poi = specs.model_spec(a["ws"], a["meas"])
-            return pyhf.Model(spec, poi_name=poi, batch_size=a["batch"], modifier_settings=ms)
+            kw.setdefault("poi_name", poi)
+            return pyhf.Model(spec, batch_size=a["batch"], modifier_settings=ms, **kw)
         if kind == "interp":
             return pyhf.interpolators.get(a["code"])(a["hist"])
         if kind == "tv":
